@@ -157,8 +157,8 @@ func c19OSCheck(l *OSFileSystemLoader, dir, p string, tree []string) {
 	}
 }
 
-var c19OSRoots = []string{"/repo/testData/resolve", "/repo/testData/resolve/", "/repo/testData", "/repo/testData/resolve/sub", "/repo/loaders/../testData/resolve"}
-var c19OSDirs = []string{"/repo/testData/resolve", "/repo/testData/resolve", "/repo/testData", "/repo/testData/resolve/sub", "/repo/testData/resolve"}
+var c19OSRoots = []string{"/repo/testData/resolve", "/repo/testData/resolve/", "/repo/testData", "/repo/testData/resolve/sub", "/repo/loaders/../testData/resolve", "/verif/fixtures/ostree"}
+var c19OSDirs = []string{"/repo/testData/resolve", "/repo/testData/resolve", "/repo/testData", "/repo/testData/resolve/sub", "/repo/testData/resolve", "/verif/fixtures/ostree"}
 
 // H_C19_osShort: every clean absolute path of up to 4 (quick) / 5 (thorough) bytes - all
 // bytes symbolic - against the real tree below /repo/testData (several spellings of the
@@ -184,8 +184,14 @@ func H_C19_osShort() {
 //
 //gosym:reach file,dir,notfile
 func H_C19_osNear() {
-	vfOSRoot("/repo", "/repo")
-	r := ndChoice("root", 2) * 2 // "/repo/testData/resolve", "/repo/testData"
+	// "/repo/testData/resolve", "/repo/testData", and a fixture tree with unusual names (dots
+	// inside names, leading dots, spaces, an empty file)
+	r := []int{0, 2, 5}[ndChoice("root", 3)]
+	if r == 5 {
+		vfOSRoot("/verif/fixtures", "/repo")
+	} else {
+		vfOSRoot("/repo", "/repo")
+	}
 	tree := vfListTree(c19OSDirs[r])
 	var universe []string
 	for _, e := range tree {
